@@ -4,6 +4,8 @@ import (
 	"strings"
 
 	"gmcheck/core"
+
+	"golang.org/x/tools/go/ssa"
 )
 
 func init() {
@@ -14,6 +16,14 @@ func init() {
 			obs = append(obs, filterObs(c.BitFields("net/packet"), func(o core.Ob) bool { return strings.Contains(o.Key, "VarInt") || strings.Contains(o.Key, "VarLong") })...)
 			obs = append(obs, c.GroupOrder("net/packet")...)
 			obs = append(obs, filterObs(c.NoReadAhead(), func(o core.Ob) bool { return strings.Contains(o.Key, "packet") || o.Key == "scope" })...)
+			// the one-byte adapter the decoders read through: a direct Read in anything the two decoders
+			// reach must look at its count (a (0, nil) read is not a zero byte)
+			reach := c.Reach([]*ssa.Function{c.Fn("net/packet.(*VarInt).ReadFrom"), c.Fn("net/packet.(*VarLong).ReadFrom")}, pkgPred("net/packet"))
+			names := map[string]bool{}
+			for f := range reach {
+				names[core.FnName(core.Origin(f))] = true
+			}
+			obs = append(obs, filterObs(c.RawRead(), func(o core.Ob) bool { return names[o.Func] })...)
 			return obs
 		},
 	}
